@@ -251,6 +251,11 @@ EXTRA["C02"] += CAPACITY
 EXTRA["C03"] += CAPACITY
 EXTRA["C09"] += CAPACITY
 EXTRA["C01"] += " (narrow) every narrowing conversion on the construction path is bounded (rule shared with C08)."
+EXTRA["C01"] += " (step-mode) a descent without step handling is reached only under a witness of stored inner prefixes (rule of C10, taken over)."
+EXTRA["C02"] += " (descent) the neighbour rules of the three-way descent RangeGet shares with Search — one definition of first/last child, candidates inside the child range, left candidate finished by the right-most walk (rules of C09)."
+EXTRA["C05"] = " (stat) Stat maps its report from the level table that NewSlimTrie and Unmarshal derive from the message alike (rules C18.mapping/identity, taken over)."
+EXTRA["C14"] += " (load-routing) each compatible version is routed to the loader and fix-ups of its layout (rule C06.routing, taken over)."
+EXTRA["C19"] += " (bitslice) the short-node table index is exactly the stored bits of the node (rule shared with C01/C10)."
 for _k, _v in EXTRA.items():
     CLAIMS[_k]["text"] = CLAIMS[_k]["text"] + _v
 
